@@ -234,6 +234,13 @@ impl StoreTransaction {
                 .build();
             self.delete(COLUMN_BLOCK_BODY, key.as_slice())?;
         }
+        // the read caches are keyed by block hash and nothing else ever invalidates them:
+        // a deleted block must not keep answering from them
+        self.cache.headers.lock().pop(&hash);
+        self.cache.block_proposals.lock().pop(&hash);
+        self.cache.block_tx_hashes.lock().pop(&hash);
+        self.cache.block_uncles.lock().pop(&hash);
+        self.cache.block_extensions.lock().pop(&hash);
         Ok(())
     }
 
